@@ -37,7 +37,8 @@ type Conc struct {
 func NewConc(seed int64, u *big.Int) *Conc {
 	c := &Conc{Seed: seed, U: u, Trees: map[string][]absx.M{}, addrRev: map[string]string{}, denomRev: map[string]string{},
 		rootRev: map[string]absx.M{}, leafRev: map[string]string{}, metaRev: map[string]absx.M{}, dataRev: map[string]string{}}
-	long := "factory/init1qqqqqqqqqqqqqqqqqqqqqqqqqqqqqqqqqqqqqqqqqqqqpqr5s4/" // two long denoms that share a 64-byte prefix
+	// two denoms of 122 characters (the SDK allows 128; a token-factory denom of a 32-byte address gets there) that share a long prefix
+	long := "factory/init1qqqqqqqqqqqqqqqqqqqqqqqqqqqqqqqqqqqqqqqqqqqqpqr5s4/" + strings.Repeat("sub-denom.", 5) + "x/"
 	pools := [][]string{
 		{"uinit", "ibc/27394FB092D2ECCD56123C74F36E4C1F926001CEADA9CA97EA622B25F41E5EB2", "utia", "factory/init1xyz/sub-denom"},
 		{long + "uusdc", long + "uusdt", "test3", "test4"},
